@@ -142,7 +142,7 @@ def prefixesJson (file : Bytes) (orig : RawTriangle) (outs : Array RawTriangle) 
     | .error _ => (n + 1, nOk, nErr + 1, mism)
   let (_, nOk, nErr, mism) := per.foldl step (0, 0, 0, [])
   Json.mkObj [
-    ("spec", Json.arr (outs.map (fun o => Json.bool (Spec.prefixSafe orig o)))),
+    ("spec", Json.arr (outs.map (fun o => Json.bool (Spec.C19.prefixSafe orig o)))),
     ("modelOk", (nOk : Nat)), ("modelErr", (nErr : Nat)), ("mismatch", Json.arr mism.toArray)]
 
 def extOfString : String → Ext
@@ -170,7 +170,7 @@ def handle (j : Json) : Except String Json := do
         if !(isOk r cells) then fields := fields ++ [("fileDecode", resultJson r)]
     | .error _ => pure ()
     match ← optCells j "impl" with
-    | some t => fields := fields ++ [("spec", Json.bool (Spec.roundTrip cells t)),
+    | some t => fields := fields ++ [("spec", Json.bool (Spec.C05.roundTrip cells t)),
                                      ("implEq", Json.bool (t == cells))]
     | none => pure ()
     return Json.mkObj fields
@@ -188,8 +188,8 @@ def handle (j : Json) : Except String Json := do
   | "spec" =>
     let cells ← rawCellsFromJson (← j.getObjVal? "cells")
     let impl ← rawCellsFromJson (← j.getObjVal? "impl")
-    return Json.mkObj [("spec", Json.bool (Spec.roundTrip cells impl)), ("implEq", Json.bool (impl == cells)),
-                       ("prefixSafe", Json.bool (Spec.prefixSafe cells impl))]
+    return Json.mkObj [("spec", Json.bool (Spec.C05.roundTrip cells impl)), ("implEq", Json.bool (impl == cells)),
+                       ("prefixSafe", Json.bool (Spec.C19.prefixSafe cells impl))]
   | "prefixes" =>
     let fb ← hexFromJson (← j.getObjVal? "hex")
     let cells ← rawCellsFromJson (← j.getObjVal? "cells")
